@@ -5,7 +5,7 @@ Every invariant named here is an obligation of a structural rule (the `check` fu
 property module listed in INV_DEPENDS), so nothing is trusted merely because it was read once.
 A site that moves to another function, or a new site, has no row and is reported.
 """
-from lib import sfx, strip_expr, strip_refs, show, expr_calls, callers_of, bool_switch_true_target
+from lib import sfx, strip_expr, strip_refs, show, expr_calls, callers_of, bool_switch_true_target, aggregates
 
 # invariants established by other property modules: (module, key prefixes whose violation breaks it)
 INV_DEPENDS = {
@@ -333,6 +333,60 @@ def chk_stop_evaluating(F, E, body, s):
     return any(body.dominates(c.bb, rn.bb) and "Vec::new" in show(body.expr(c.args[1])) for c in sets)
 
 
+def chk_cruncher_cursor(F, E, body, s):
+    """INV-CRUNCHER: LineCruncher.index <= bytes.len().  Every store to the field is one of: 0 (constructor),
+    `index + 1` under a dominating `index < bytes.len()` test, `index + p + 1` where p is the payload of position() over
+    `bytes[index..]` (so p < len - index), or `bytes.len()` itself.  `&bytes[index..]` is then in range."""
+    LC = "line_cruncher::LineCruncher"
+    n = 0
+    for b in F.bodies.values():
+        if b.crate != "abasic_core":
+            continue
+        for (bb, i, pl, rv, sp) in aggregates(b, LC):
+            names = rv.get("fields", [])
+            if "index" in names:
+                v = strip_expr(b.expr(rv["ops"][names.index("index")]))
+                if not (v[0] == "const" and v[1].get("int") == 0):
+                    return False
+        for (bb, i, pl, rv, sp) in b.assigns():
+            fs = [p for p in pl["proj"] if p["k"] == "field"]
+            if not (fs and fs[-1].get("name") == "index" and fs[-1].get("adt", "").endswith(LC)):
+                continue
+            n += 1
+            e = strip_expr(b.rv_expr(rv))
+            txt = show(e)
+            if e[0] == "call" and e[1].endswith("::len") and expr_has_field_(e, "bytes"):
+                continue
+            if e[0] == "place" and e[1][0] == "binop" and e[1][1] == "AddWithOverflow":
+                l, r = strip_expr(e[1][2]), strip_expr(e[1][3])
+                if expr_has_field_(l, "index") and r[0] == "const" and r[1].get("int") == 1:
+                    # needs the dominating `index < len` test
+                    ok = False
+                    for g in sorted(b.reachable()):
+                        t = b.term(g)
+                        if t["k"] == "switch" and b.dominates(g, bb) and g != bb:
+                            ge = strip_expr(b.expr(t["discr"]))
+                            if ge[0] == "binop" and ge[1] == "Lt" and expr_has_field_(ge[2], "index") and "len" in show(ge[3]) and expr_has_field_(ge[3], "bytes"):
+                                ft = bool_switch_true_target(b, g)
+                                if ft and b.dominates(ft[1], bb):
+                                    ok = True
+                    if ok:
+                        continue
+                    return False
+                names_ = [x[1].split("::")[-1] for x in expr_calls(e)]
+                if expr_has_field_(l, "index") and "position" in names_ and "index" in names_ and \
+                        any(x[1].endswith("Index<I> for [T]>::index") and any("RangeFrom" in g for g in (x[3].gargs if len(x) > 3 else [])) for x in expr_calls(e)):
+                    # index + (position payload + 1) over bytes[index..]
+                    continue
+            return False
+    return n >= 1
+
+
+def expr_has_field_(e, name):
+    from lib import expr_has_field
+    return expr_has_field(e, name)
+
+
 R = {}
 
 
@@ -356,6 +410,9 @@ for k in ("Overflow:Mul", "Overflow:Add", "Overflow:Mul#2"):
         "product(dimensions) <= MAX_DIM_TOTAL_ELEMENTS (10^4; 10^8 for index*stride fits 32-bit usize)", chk_gli)
 row(P + "arrays::DimArray::new|alloc-size|from_elem|of:default", "INV-DIM",
     "total_elements <= MAX_DIM_TOTAL_ELEMENTS is tested before the allocation (C16:DIM:cap-guard)")
+# ---- line cruncher
+row("<abasic_core::line_cruncher::LineCruncher as core::iter::traits::iterator::Iterator>::next|index|index|of:.bytes", "INV-CRUNCHER",
+    "LineCruncher.index <= bytes.len() is preserved by every store to the field, so `&bytes[index..]` is in range", chk_cruncher_cursor)
 # ---- function calls
 row(P + "program::Program::pop_function_call_off_stack_and_return_from_it|unwrap|expect|of:pop", "INV-FNCALL",
     "called only after a successful push in evaluate_user_defined_function_call; expression evaluation cannot reach "
